@@ -14,7 +14,7 @@ EXTENDS Container
 
 \* ---- items ---------------------------------------------------------------------------------
 ReservedBad == {"retctx", "retprov", "asctx", "multiscope", "outprov"}
-InvalidBad  == {"nameandgroup", "backquote", "asstruct", "nilctor", "nilfunc"}
+InvalidBad  == {"nameandgroup", "backquote", "asstruct", "nilctor", "nilfunc", "outnamegroup"}
 
 Desc(item, o) == LET x == OutsOf(item)[o] IN
                  [item |-> item.id, out |-> o, t |-> x.t, k |-> x.k, g |-> x.g, life |-> item.life, shape |-> item.shape]
